@@ -539,7 +539,7 @@ def show_input(prog, rows):
 # programs without interpreted functions (only equality on constants and variables): C06's constant re-mapping
 
 
-def gen_pure_program(rng, dom=4, neg=True):
+def gen_pure_program(rng, dom=4, neg=True, consts=True):
     nrel = rng.randint(3, 6)
     n_in = rng.randint(1, min(3, nrel - 1))
     rels = [Rel('r%d' % i, [T.I32] * rng.choice([1, 2, 2, 2, 3])) for i in range(nrel)]
@@ -558,7 +558,7 @@ def gen_pure_program(rng, dom=4, neg=True):
         body = []
         pos = [n for n in byname if level[n] <= level[h]]
         lower = [n for n in byname if level[n] < level[h]]
-        if rng.random() < 0.08:
+        if rng.random() < 0.08 and consts:
             rules.append(Rule([Head(h, [K(rng.randrange(dom)) for _ in byname[h].tys])], []))
             continue
         for ci in range(rng.choice([1, 2, 2, 3, 3])):
@@ -574,7 +574,7 @@ def gen_pure_program(rng, dom=4, neg=True):
                     new.append(v)
                 elif r < 0.78 and new:
                     args.append(AVar(rng.choice(new)))
-                elif r < 0.88:
+                elif r < 0.88 or not consts:
                     args.append(AWild())
                 else:
                     args.append(AExpr(K(rng.randrange(dom))))
@@ -582,17 +582,19 @@ def gen_pure_program(rng, dom=4, neg=True):
             allv = bound + new
             if allv and rng.random() < 0.3:
                 a = V(rng.choice(allv))
-                b = V(rng.choice(allv)) if rng.random() < 0.5 else K(rng.randrange(dom))
+                b = V(rng.choice(allv)) if (rng.random() < 0.5 or not consts) else K(rng.randrange(dom))
                 conds.append(If(Cmp(rng.choice(['==', '!=', '!=']), a, b)))
             body.append(Clause(rn, args, conds))
             bound += new
             if neg and lower and bound and rng.random() < 0.2:
                 nr = rng.choice(lower)
-                body.append(Neg(nr, [AVar(rng.choice(bound)) if rng.random() < 0.7 else (AWild() if rng.random() < 0.5 else AExpr(K(rng.randrange(dom)))) for _ in byname[nr].tys]))
-        hargs = [V(rng.choice(bound)) if bound and rng.random() < 0.8 else K(rng.randrange(dom)) for _ in byname[h].tys]
+                body.append(Neg(nr, [AVar(rng.choice(bound)) if rng.random() < 0.7 else (AWild() if (rng.random() < 0.5 or not consts) else AExpr(K(rng.randrange(dom)))) for _ in byname[nr].tys]))
+        if not bound:
+            continue
+        hargs = [V(rng.choice(bound)) if (rng.random() < 0.8 or not consts) else K(rng.randrange(dom)) for _ in byname[h].tys]
         heads = [Head(h, hargs)]
         if rng.random() < 0.15:
             h2 = rng.choice([d for d in derived if level[d] >= level[h]])
-            heads.append(Head(h2, [V(rng.choice(bound)) if bound and rng.random() < 0.8 else K(rng.randrange(dom)) for _ in byname[h2].tys]))
+            heads.append(Head(h2, [V(rng.choice(bound)) if (rng.random() < 0.8 or not consts) else K(rng.randrange(dom)) for _ in byname[h2].tys]))
         rules.append(Rule(heads, body))
     return Program(rels, rules), input_rels
